@@ -483,3 +483,16 @@ Definition proc_log (v : variant) (le : bool) (o : ipv6_oracle) (files : bytes -
              end
   | _ => []
   end.
+
+(* ------------------------------------------------------------ after os.fork() *)
+(* The NetConnections singleton and every module-level object are copied into a forked child.  A synchronisation object
+   that another thread of the parent held at the moment of the fork stays held in the child for ever (that thread does
+   not exist there) unless an os.register_at_fork(after_in_child=...) handler re-creates it.  [gen_fork_sync] (dumped
+   from the code) lists those objects; a call in the child that needs a stale one never returns. *)
+Inductive child_answer (A : Type) := Answers (o : outcome A) | Hangs.
+Arguments Answers {A} o.
+Arguments Hangs {A}.
+Definition fork_stale_lock : bool := existsb (fun e => negb (snd e)) gen_fork_sync.
+(* [held]: some other thread was inside net_connections() when the parent forked *)
+Definition in_forked_child {A} (held : bool) (o : outcome A) : child_answer A :=
+  if held && fork_stale_lock then Hangs else Answers o.
